@@ -1343,4 +1343,240 @@ theorem resolve_partial_settled (prog : Expr) (path : List Step) (h : InFragment
           rw [root_step_set_spec fs prog key rest sid r items hc] at hs ⊢
           exact hN (F + 1) (fs + 1) (by omega) hs
 
+
+/-- Lemma TS: in the fragment the spec settles: `2·(items not yet visited)+2` fuel on each side is enough -/
+theorem specFollow_terminates (m : Nat) : ∀ (fL fR : Nat) (E : Env) (name : Text) (vis ivis : List Nat),
+    EnvOK E → remE vis ivis E ≤ m → 2 * m + 2 ≤ fL → 2 * m + 2 ≤ fR →
+    specFollow fL fR E name vis ivis ≠ .fail .fuel := by
+  induction m with
+  | zero =>
+    intro fL fR E name vis ivis hE hr hL hR
+    obtain ⟨x, rfl⟩ : ∃ x, fL = x + 2 := ⟨fL - 2, by omega⟩
+    obtain ⟨y, rfl⟩ : ∃ y, fR = y + 1 := ⟨fR - 1, by omega⟩
+    rcases scan_findLex (resolveId 0) name vis ivis {} E hE with
+      ⟨h1, _⟩ | ⟨id, n, v, inner, outer, h1, _, h3, h4, h5⟩ | ⟨id, ns, inner, outer, h1, _, h3, h5⟩
+    · simp only [specFollow, lookupS, h1, withPassS, findWith_envOK E hE, followK]
+      intro h; cases h
+    · simp only [specFollow, lookupS, h1, itemValueS]
+      by_cases hv : vis.contains id = true
+      · simp only [hv, if_true, followK]; intro h; cases h
+      · exfalso
+        obtain ⟨pre, items, e1, e2, e3⟩ := h5
+        have a1 := cntB_strict id n v vis items e3 hv
+        have a3 := remE_suffix vis ivis pre (.recF items :: outer)
+        rw [← e1] at a3
+        simp only [remE, frameItems] at a3
+        omega
+    · simp only [specFollow, lookupS, h1, itemValueS]
+      by_cases hv : ivis.contains id = true
+      · simp only [hv, if_true, followK]; intro h; cases h
+      · exfalso
+        obtain ⟨pre, items, e1, e3⟩ := h5
+        have a1 := cntI_strict id ns ivis items e3 hv
+        have a3 := remE_suffix vis ivis pre (.recF items :: outer)
+        rw [← e1] at a3
+        simp only [remE, frameItems] at a3
+        omega
+  | succ m ih =>
+    intro fL fR E name vis ivis hE hr hL hR
+    obtain ⟨x, rfl⟩ : ∃ x, fL = x + 2 := ⟨fL - 2, by omega⟩
+    obtain ⟨y, rfl⟩ : ∃ y, fR = y + 1 := ⟨fR - 1, by omega⟩
+    rcases scan_findLex (resolveId 0) name vis ivis {} E hE with
+      ⟨h1, _⟩ | ⟨id, n, v, inner, outer, h1, _, h3, h4, h5⟩ | ⟨id, ns, inner, outer, h1, _, h3, h5⟩
+    · simp only [specFollow, lookupS, h1, withPassS, findWith_envOK E hE, followK]
+      intro h; cases h
+    · simp only [specFollow, lookupS, h1, itemValueS]
+      by_cases hv : vis.contains id = true
+      · simp only [hv, if_true, followK]; intro h; cases h
+      · simp only [hv, if_false, Bool.false_eq_true, followK]
+        obtain ⟨pre, items, e1, e2, e3⟩ := h5
+        have hlt : remE (id :: vis) ivis inner ≤ m := by
+          have a1 := cntB_strict id n v vis items e3 hv
+          have a2 := remE_mono_vis id vis ivis outer
+          have a3 := remE_suffix vis ivis pre (.recF items :: outer)
+          rw [← e1] at a3
+          rw [e2]
+          simp only [remE, frameItems] at a3 ⊢
+          omega
+        rcases frag_ref_or_not v h4 with ⟨j, n2, rfl⟩ | hnr
+        · rw [resolveCloS_ref]
+          exact ih _ _ inner n2 (id :: vis) ivis h3 hlt (by omega) (by omega)
+        · have hcore := core_not_ref v hnr
+          simp only [resolveCloS]
+          intro h; cases h
+    · simp only [specFollow, lookupS, h1, itemValueS]
+      by_cases hv : ivis.contains id = true
+      · simp only [hv, if_true, followK]; intro h; cases h
+      · simp only [hv, if_false, Bool.false_eq_true]
+        obtain ⟨pre, items, e1, e3⟩ := h5
+        have hlt : remE vis (id :: ivis) outer ≤ m := by
+          have a1 := cntI_strict id ns ivis items e3 hv
+          have a2 := remE_mono_ivis id vis ivis outer
+          have a3 := remE_suffix vis ivis pre (.recF items :: outer)
+          rw [← e1] at a3
+          simp only [remE, frameItems] at a3
+          omega
+        exact ih x (y + 1) outer name vis (id :: ivis) h3 hlt (by omega) (by omega)
+
+
+theorem settled_specOut (s : SR (Clo × List Nat × List Nat)) (h : s ≠ .fail .fuel) : Settled (specOut s) := by
+  cases s with
+  | ok p => obtain ⟨c, a, b⟩ := p; exact ⟨(fun h => nomatch h), (fun h => nomatch h)⟩
+  | fail k =>
+    refine ⟨(fun hk => ?_), (fun h => nomatch h)⟩
+    simp only [specOut] at hk
+    injection hk with hk
+    exact h (by rw [hk])
+
+/-- the spec's traversal settles with enough fuel (same case analysis as `nav_agree`) -/
+theorem nav_settled (prog : Expr) : ∀ (path : List Step) (e : Expr) (E : Env),
+    EnvOK E → fragE e = true → keysOnly path = true → endsOnRecInherit (path.length + 1) e path = false →
+    ∃ M, ∀ fs, M ≤ fs → Settled (specFrom fs prog (.at ⟨e, E⟩) path) := by
+  intro path
+  induction path with
+  | nil =>
+    intro e E hE hf _ _
+    rcases frag_ref_or_not e hf with ⟨j, n, rfl⟩ | hnr
+    · refine ⟨2 * remE [] [] E + 3, fun fs hfs => ?_⟩
+      obtain ⟨y, rfl⟩ : ∃ y, fs = y + 1 := ⟨fs - 1, by omega⟩
+      rw [specFrom_nil_ref, resolveCloS_ref]
+      exact settled_specOut _ (specFollow_terminates _ _ _ E n [] [] hE (Nat.le_refl _) (by omega) (by omega))
+    · refine ⟨0, fun fs _ => ?_⟩
+      have hcore := core_not_ref e hnr
+      have : specFrom fs prog (.at ⟨e, E⟩) [] = .nav .notIdent := by
+        simp only [specFrom, specSteps, derefS]
+      rw [this]
+      exact ⟨(fun h => nomatch h), (fun h => nomatch h)⟩
+  | cons s rest ih =>
+    intro e E hE hf hk hr
+    obtain ⟨⟨key, rfl⟩, hk'⟩ := keysOnly_cons s rest hk
+    rcases frag_core_cases e hf with ⟨sid, r, items, hc⟩ | ⟨hns, hnw⟩
+    · have hsyn := synTarget_of_core e hf sid r items hc
+      have hfi := core_set_frag e hf sid r items hc
+      cases hb : findBind key items with
+      | some p =>
+        obtain ⟨bid, v⟩ := p
+        have hbv := bindValue_of_findBind key items bid v hb
+        have hr' : endsOnRecInherit (rest.length + 1) v rest = false := by
+          simpa only [List.length_cons, endsOnRecInherit, hsyn, hbv] using hr
+        have hv : fragE v = true := by
+          rcases findBindS_findBind key items hfi with ⟨h1, _⟩ | ⟨id, n, v', h1, _, h3⟩
+          · rw [h1] at hb; cases hb
+          · rw [h1] at hb; injection hb with hb; injection hb with _ hb; subst hb; exact h3
+        obtain ⟨M, hM⟩ := ih v (childEnv r items E e.layers) (envOK_childEnv e E r items hE hf hfi) hv hk' hr'
+        refine ⟨M + 1, fun fs hfs => ?_⟩
+        obtain ⟨y, rfl⟩ : ∃ y, fs = y + 1 := ⟨fs - 1, by omega⟩
+        have hk2 : specStep (y + 1) prog (.at ⟨e, E⟩) (.key key) =
+            .ok (.at ⟨v, childEnv r items E e.layers⟩) := by
+          simp only [specStep, keyStepS, hc, keyInSet, hb, Clo.inner, SetClo.inner, childEnv]
+        rw [specFrom_cons, hk2]
+        exact hM (y + 1) (by omega)
+      | none =>
+        have hbv := bindValue_none_of_findBind key items hb
+        cases hi : findInherit key items with
+        | none =>
+          refine ⟨1, fun fs hfs => ?_⟩
+          obtain ⟨y, rfl⟩ : ∃ y, fs = y + 1 := ⟨fs - 1, by omega⟩
+          have : specFrom (y + 1) prog (.at ⟨e, E⟩) (.key key :: rest) = .nav .key := by
+            rw [specFrom_cons]
+            simp only [specStep, keyStepS, hc, keyInSet, hb, hi]
+          rw [this]
+          exact ⟨(fun h => nomatch h), (fun h => nomatch h)⟩
+        | some it =>
+          cases rest with
+          | nil =>
+            have hrf : r = false := by
+              simp only [List.length_cons, List.length_nil, endsOnRecInherit, hsyn, hbv, hi,
+                List.isEmpty_nil, Bool.true_and, Option.isSome_some, Bool.and_true] at hr
+              exact hr
+            subst hrf
+            obtain ⟨iid, ns, hit⟩ := findInherit_frag key items hfi it hi
+            subst hit
+            have hbs : findBindS key items = none := by
+              rcases findBindS_findBind key items hfi with ⟨_, h2⟩ | ⟨id, n, v, h1, _, _⟩
+              · exact h2
+              · rw [h1] at hb; cases hb
+            have hE' : EnvOK (.recF items :: pushLets E e.layers) :=
+              envOK_cons items _ hfi (envOK_pushLets E e.layers hE (frag_layers e hf).1)
+            refine ⟨2 * remE [] [] (.recF items :: pushLets E e.layers) + 3, fun fs hfs => ?_⟩
+            obtain ⟨y, rfl⟩ : ∃ y, fs = y + 1 := ⟨fs - 1, by omega⟩
+            have hk2 : specStep (y + 1) prog (.at ⟨e, E⟩) (.key key) =
+                .ok (.atInh (.inh iid ns) (pushLets E e.layers) (pushLets E e.layers) key false) := by
+              simp only [specStep, keyStepS, hc, keyInSet, hb, hi, Clo.inner, SetClo.inner, Bool.false_eq_true,
+                if_false]
+            rw [specFrom_cons, hk2]
+            simp only
+            rw [specFrom_nil_inh]
+            have hl : lookupS (y + 1 + 1) (.recF items :: pushLets E e.layers) key [] [] =
+                itemValueS (y + 1) (.inh iid ns) (.recF items :: pushLets E e.layers) (pushLets E e.layers) key [] [] := by
+              simp only [lookupS, findLex, findItem, hbs, hi]
+            have hsf := specFollow_terminates _ (y + 1 + 1) (y + 1) (.recF items :: pushLets E e.layers) key [] []
+              hE' (Nat.le_refl _) (by omega) (by omega)
+            simp only [specFollow, hl] at hsf
+            rw [itemValueS_inh_inner (y + 1) iid ns (.recF items :: pushLets E e.layers) (pushLets E e.layers)] at hsf
+            exact settled_specOut _ hsf
+          | cons s2 rest2 =>
+            obtain ⟨⟨key2, rfl⟩, _⟩ := keysOnly_cons s2 rest2 hk'
+            refine ⟨1, fun fs hfs => ?_⟩
+            obtain ⟨y, rfl⟩ : ∃ y, fs = y + 1 := ⟨fs - 1, by omega⟩
+            have : specFrom (y + 1) prog (.at ⟨e, E⟩) (.key key :: .key key2 :: rest2) = .nav .type := by
+              rw [specFrom_cons]
+              simp only [specStep, keyStepS, hc, keyInSet, hb, hi]
+              rw [specFrom_cons]
+              rfl
+            rw [this]
+            exact ⟨(fun h => nomatch h), (fun h => nomatch h)⟩
+    · refine ⟨1, fun fs hfs => ?_⟩
+      obtain ⟨y, rfl⟩ : ∃ y, fs = y + 1 := ⟨fs - 1, by omega⟩
+      have : specFrom (y + 1) prog (.at ⟨e, E⟩) (.key key :: rest) = .nav .type := by
+        rw [specFrom_cons]
+        have : specStep (y + 1) prog (.at ⟨e, E⟩) (.key key) = .nav .type := by
+          simp only [specStep, keyStepS]
+        rw [this]
+      rw [this]
+      exact ⟨(fun h => nomatch h), (fun h => nomatch h)⟩
+
+
+/-- inside the fragment the spec gives a definite answer with enough fuel -/
+theorem spec_settles (prog : Expr) (path : List Step) (h : InFragment prog path = true) :
+    ∃ M, ∀ fs, M ≤ fs → Settled (specResolve fs prog path) := by
+  simp only [InFragment, Bool.and_eq_true, Bool.not_eq_true'] at h
+  obtain ⟨⟨⟨hf, hk⟩, hri⟩, _⟩ := h
+  cases path with
+  | nil => exact ⟨0, fun fs _ => ⟨(fun h => nomatch h), (fun h => nomatch h)⟩⟩
+  | cons s rest =>
+    obtain ⟨⟨key, rfl⟩, _⟩ := keysOnly_cons s rest hk
+    rcases frag_core3 prog hf with ⟨j, n, rfl⟩ | ⟨i, hi⟩ | ⟨sid, r, items, hc⟩
+    · refine ⟨3, fun fs hfs => ?_⟩
+      obtain ⟨y, rfl⟩ : ∃ y, fs = y + 3 := ⟨fs - 3, by omega⟩
+      have : specResolve (y + 3) (.ref j n) (.key key :: rest) = .navError .unbound := by
+        rw [specResolve_eq, specFrom_cons]
+        have hc : (Expr.ref j n).core = .ref j n := rfl
+        simp only [specStep, specTarget, hc, resolveCloS_ref, specFollow, lookupS, findLex, withPassS, findWith,
+          followK]
+      rw [this]
+      exact ⟨(fun h => nomatch h), (fun h => nomatch h)⟩
+    · refine ⟨1, fun fs hfs => ?_⟩
+      obtain ⟨y, rfl⟩ : ∃ y, fs = y + 1 := ⟨fs - 1, by omega⟩
+      have : specResolve (y + 1) prog (.key key :: rest) = .nav .value := by
+        rw [specResolve_eq, specFrom_cons]
+        simp only [specStep, specTarget, hi]
+      rw [this]
+      exact ⟨(fun h => nomatch h), (fun h => nomatch h)⟩
+    · have hri' : endsOnRecInherit ((Step.key key :: rest).length + 1) prog (.key key :: rest) = false := hri
+      obtain ⟨M, hM⟩ := nav_settled prog (.key key :: rest) prog [] envOK_nil hf hk hri'
+      refine ⟨M + 1, fun fs hfs => ?_⟩
+      obtain ⟨y, rfl⟩ : ∃ y, fs = y + 1 := ⟨fs - 1, by omega⟩
+      rw [specResolve_eq, root_step_set_spec y prog key rest sid r items hc]
+      exact hM (y + 1) (by omega)
+
+/-- C10, partial, in the shape of the full statement: inside the fragment, with enough fuel on both
+    sides, the code's outcome agrees with Nix's scoping. -/
+theorem resolve_partial_fuel (prog : Expr) (path : List Step) (h : InFragment prog path = true) :
+    ∃ N, ∀ k, agrees (implResolve (N + k) prog path) (specResolve (N + k) prog path) = true := by
+  obtain ⟨N, hN⟩ := resolve_partial_settled prog path h
+  obtain ⟨M, hM⟩ := spec_settles prog path h
+  exact ⟨N + M, fun k => hN _ _ (by omega) (hM _ (by omega))⟩
+
+
 end Nima.Scope
